@@ -29,6 +29,8 @@ CHECKS = {
     ),
 }
 
+RA = "the three standard-library real-number axioms (sig_forall_dec, sig_not_dec, functional_extensionality_dep)"
+
 CHECKS["C01"] = dict(
     category="translation_validation",
     text=("Proof-carrying results: every (d, a, b) returned by gjk_distance_jolt on generated pairs (all 10 collider kinds, Margin, "
@@ -41,9 +43,12 @@ CHECKS["C01"] = dict(
           "is sound; the duality-gap lower bound; the two classical GJK lemmas; the no-improvement exit reports the exact distance (partial: "
           "under two hypotheses about the simplex solver - its result is a minimum-norm point of the hull of its rows, the current closest point "
           "lies in the hull of the current rows - which C18 proves for the line and the non-degenerate triangle arms and REFUTES inside the "
-          "solver's epsilon bands (C18_jolt_refuted); not discharged here). Tie model/code: the support points the implementation obtained in "
+          "solver's epsilon bands (C18_jolt_refuted: false in general for tetrahedra); not discharged here, and no Example exercises the "
+          "hypotheses of C01_exact_on_stall_partial together: C01_loop_nonvacuous is the initial state only). Tie model/code: the support points "
+          "the implementation obtained in "
           "iteration i are replayed through step i of the model, which must reproduce every search direction, the iteration count, the exit and "
-          "(d, a, b); a difference is excused only if the model's own discrete behaviour changes under ~1-10 ulp perturbations of the trace. "
+          "(d, a, b); a difference is excused only if the model's own discrete behaviour changes under ~1-10 ulp perturbations of the trace "
+          "(excused cases are reported by kind in the evidence). "
           "NOT proved: accuracy of the relative-progress exit in binary64 (DESIGN section 7). Known finding F-J2 (the Jolt simplex solver's "
           "ill-conditioned classes reach the distance query), routed by replaying the trace and applying C18's exact predicates."),
     design_ref="DESIGN.md section 5, C01; sections 2.3, 9",
@@ -53,303 +58,464 @@ CHECKS["C01"] = dict(
 
 CHECKS["C03"] = dict(
     category="proof",
-    text=("Proved in Coq for ALL inputs about the real-arithmetic instance of the hand-written model Model/Support.v of geometry.py / "
-          "colliders.py / mesh.py (Props/C03.v, 41 theorems): for sphere, cylinder, capsule, ellipsoid, cone, disk, ellipse, box (np.sign form "
-          "and 8-vertex Box collider), vertex hulls (first-maximal-index argmax) and Margin the returned point is a point of the closed set AND "
-          "maximises x.d over it exactly, for every direction (d = 0 and zero components included) and every pose matrix (only the disk needs a "
-          "unit normal); first_vertex() and center() of all ten kinds lie in the set. MeshGraph: the hill climb stops only at a vertex without a "
-          "better neighbour and terminates on a closed adjacency; global maximality and independence of the cached start vertex are proved only "
-          "under the explicit hypothesis LocalMaxGlobal on the input mesh (C03_mesh_*_partial; missing: that edge graphs of convex polytopes "
-          "satisfy it). Per generated input (not universal): the implementation's answers are judged by an exact rational oracle (membership and "
-          "s.d within 1e-9 L of the exact maximum) and compared with the binary64 run of the same model evaluated inside coqc (support value, "
-          "full point where unique, vertex index, shortcut table, first_vertex, center; mesh query histories vs fresh objects)."),
+    text=("PROVED in Coq for ALL inputs (Props/C03.v, 61 theorems; real-number axioms only) about the real-arithmetic instance of the "
+          "hand-written line-by-line Gallina model Model/Support.v of geometry.py / colliders.py / mesh.py: for sphere, cylinder, capsule, "
+          "ellipsoid, cone, disk, ellipse, box (np.sign form and 8-vertex Box collider), vertex hulls (first-maximal-index argmax) and Margin the "
+          "returned point belongs to the closed set AND maximises x.d over it exactly, for every direction (d = 0, zero components, the s==0 / "
+          "norm==0 / sign(0) arms included) and every pose matrix (only the disk needs a unit normal); first_vertex() and center() of all ten "
+          "kinds lie in the set. MeshGraph: the hill climb terminates for every direction and start vertex within |V| rounds without KeyError / "
+          "IndexError on a closed adjacency - over the reals and in any arithmetic whose acceptance test implies a strict order (for binary64 a "
+          "stated hypothesis) - and stops only at a vertex without a neighbour better by > 10 eps; global maximality is fully proved for complete "
+          "adjacencies (C03_mesh_support_complete_adjacency); otherwise maximality and independence of the cached start vertex (one query and "
+          "any sequence) hold ONLY under the hypothesis LocalMaxGlobal on the input mesh (four C03_mesh_*_partial theorems; that edge graphs of "
+          "convex polytopes satisfy it is not proved). Checker soundness: support_cert, in_shape_tolD, the shape expressions denote the Spec "
+          "sets (C03_expr_*), cone_cert => LocalMaxGlobal up to M*10*eps for that mesh (C03_mesh_support_certified). JUDGED PER GENERATED INPUT "
+          "only: every answer of the implementation by an exact rational oracle at 1e-9 L and again by the Coq-proven support_cert / "
+          "in_shape_tolD (vm_compute on exact rationals); up to 12 (quick) / 80 (thorough) meshes get an exact cone certificate, for the others "
+          "the hypothesis is evaluated exactly per mesh and direction; argument and collider arrays must stay unmodified. TIE to the code, every "
+          "run: the binary64 run of the same model inside coqc vs the implementation (support value; point where unique or exactly "
+          "representable; vertex index; shortcut table; adjacency = edge graph of the triangles; first_vertex; center; mesh query histories vs "
+          "fresh objects); line coverage of the 47 functions in scope is measured (182/182). NOT proved: IEEE rounding (measured only); for "
+          "non-zero |d| < ~1e-162 the binary64 model takes the norm == 0 arm where numba's BLAS norm does not, and the point comparison is "
+          "skipped for |d| <= 1e-150 (same root as C20-NORM-UNDERFLOW). Known findings: none."),
     design_ref="DESIGN.md section 5, C03",
-    technique="Coq proof over R about a hand-written Gallina model + model/implementation correspondence by vm_compute (PrimFloat) + exact rational oracle",
-    note=TB + "; the per-input property oracle is an exact Python Fraction oracle (not Coq-extracted); IEEE rounding is measured, not modelled",
+    technique="Coq proof over R about a hand-written Gallina model + model/implementation correspondence by vm_compute (PrimFloat) + exact rational oracle doubled by Coq-proven support/membership/mesh-cone certificates",
+    note=TB + "; " + RA + "; the per-input property oracle is an exact Python Fraction oracle (not Coq-extracted); harness/props/shapes_meshcone.py builds untrusted cone certificates; IEEE rounding is measured, not modelled",
 )
 CHECKS["C04"] = dict(
     category="proof",
-    text=("Proved in Coq for ALL inputs about the real-arithmetic model Model/Aabb.v of containment.py / the aabb() methods (Props/C04.v, 21 "
-          "theorems): for sphere, box, cylinder, capsule, cone, disk, ellipse, vertex hulls, MeshGraph and Margin the returned box encloses the "
-          "set and each of the six bounds is attained by a point of the set (orthonormal pose / unit normal, sizes >= 0); bounds equal the "
-          "coordinates of support points along +-e_k; two sets that meet have overlapping boxes (broad-phase completeness). Ellipsoid: exact for "
-          "the 48 signed permutation matrices; for general rotations the code's value never exceeds the true half extent and "
-          "C04_ellipsoid_refuted exhibits a rotation where the box does not enclose (known finding F9). RigidBody.aabb(): exact for the stored "
-          "body-frame vertices, C04_rigid_body_world_refuted (known finding RB-AABB). Per generated input: exact rational oracle on the six "
-          "bounds (1e-9 L) and comparison with the binary64 model run inside coqc."),
+    text=("PROVED in Coq for ALL inputs (Props/C04.v, 22 theorems; real-number axioms only) about the real-arithmetic model Model/Aabb.v of "
+          "containment.py / the aabb() methods: for sphere, box (any pose matrix), cylinder, capsule, cone, disk, ellipse (any axes), vertex "
+          "hulls, MeshGraph and Margin the returned box encloses the set and each of the six bounds is attained by a point of the set "
+          "(orthonormal pose / unit normal, sizes >= 0; cone height > 0, ellipse radii > 0); the bounds equal the support values along +-e_k "
+          "(C04_bounds_are_support_values); two sets that meet have overlapping boxes (C04_shapes_meet_aabb_overlap: broad-phase completeness, "
+          "the hypothesis C06 relies on). Ellipsoid: exact for the 48 signed permutation matrices (C04_ellipsoid_axis_aligned), the code's half "
+          "extent never exceeds the true one (C04_ellipsoid_never_larger), the true box is given (C04_ellipsoid_true_box) and "
+          "C04_ellipsoid_refuted exhibits a rotation where the returned box does NOT enclose the ellipsoid (known finding F9). "
+          "RigidBody.aabb(): exact for the stored body-frame vertices, ignores body2origin_ (C04_rigid_body_ignores_pose), refuted in the world "
+          "frame (C04_rigid_body_world_refuted = known finding RB-AABB). C04_aabb_cert_sound: soundness of the per-run box certificate. JUDGED "
+          "PER GENERATED INPUT only: every returned box by an exact rational oracle on the six bounds (1e-9 L) and by the Coq-proven aabb_cert "
+          "inside coqc (all accepted except the F9 class); streams near-aligned / 1-ulp-off / exact / lattice / random poses; RigidBody observed "
+          "again after express_in; a second aabb() call and the collider arrays must be unchanged. TIE to the code, every run: the six bounds of "
+          "the binary64 model run inside coqc vs the implementation; 60/60 lines of the functions in scope hit. NOT proved: IEEE rounding; "
+          "RigidBody.aabb() is modelled as the merge of per-tetrahedron boxes (that the tree's root box is this merge is C05's theorem). "
+          "Known findings: F9, RB-AABB."),
     design_ref="DESIGN.md section 5, C04",
-    technique="Coq proof over R about a hand-written Gallina model + model/implementation correspondence by vm_compute (PrimFloat) + exact rational oracle",
-    note=TB + "; the per-input property oracle is an exact Python Fraction oracle; RigidBody.aabb() modelled as merge of per-tetrahedron boxes (C05 gives root box = merge)",
+    technique="Coq proof over R about a hand-written Gallina model + model/implementation correspondence by vm_compute (PrimFloat) + exact rational oracle doubled by the Coq-proven aabb_cert",
+    note=TB + "; " + RA + "; the per-input property oracle is an exact Python Fraction oracle; RigidBody.aabb() modelled as merge of per-tetrahedron boxes (C05 gives root box = merge)",
 )
 CHECKS["C13"] = dict(
     category="proof",
-    text=("Proved in Coq for ALL inputs about the real-arithmetic model Model/Contain.v of containment_test.py (Props/C13.v, 21 theorems): for "
-          "orthonormal poses, predicate = true <-> point of the closed set for sphere, capsule, ellipsoid, cylinder, cone, box; the disk predicate "
-          "accepts exactly the slab of half width 10 eps around the disk; points_in_convex_mesh is exactly the intersection of the face "
-          "half-spaces and accepts every point of the hull when faces are outward (PARTIAL: the converse needs the H=V representation theorem "
-          "for the input triangulation). Cross-agreement with the models of point_to_box / point_to_cylinder / point_to_disk (distance 0 <-> "
-          "contained) and with the support mappings of C03 (no contained point projects beyond the support value). Per generated input: exact "
-          "rational classification in / out / band at 1e-9 L of the implementation's booleans, batch = single = reversed order, cross-checks "
-          "against the implementation's own point_to_<shape> and support_function, comparison with the binary64 model run inside coqc."),
+    text=("PROVED in Coq for ALL inputs (Props/C13.v, 22 theorems + 1 non-vacuity lemma; real-number axioms only) about the real-arithmetic "
+          "model Model/Contain.v of containment_test.py: for orthonormal poses predicate = true <-> point of the closed set for sphere, capsule "
+          "(height > 0), ellipsoid (radii > 0), cylinder, cone (height > 0), box - the size hypotheses exclude the divisions by zero of the code "
+          "(NaN in binary64, 0 in Coq's total division); the disk predicate accepts exactly the slab of half width 10 eps (absolute) around "
+          "the disk, and every point of the disk; points_in_convex_mesh is exactly the intersection of the face half-spaces and accepts every "
+          "point of the hull when the faces are outward (C13_convex_mesh_complete_partial - PARTIAL: the converse needs the H=V representation "
+          "theorem for the input triangulation). Cross-agreement with the models of other properties: contained <-> point_to_box / "
+          "point_to_cylinder distance 0; disk: contained => distance <= 10 eps, distance 0 <-> on the disk; no contained point projects beyond "
+          "the support value of C03 (seven C13_*_support theorems). C13_outside_cert_sound: soundness of the per-run 'must be False' "
+          "certificate. JUDGED PER GENERATED INPUT only: the implementation's booleans against an exact rational in / out / band classification "
+          "at 1e-9 L; 'must be False' verdicts doubled by the Coq-proven outside_cert inside coqc; batch = single = reversed order on judged "
+          "points; arguments unmodified and a second call identical; cross-checks with the implementation's own point_to_<shape> and "
+          "support_function. TIE to the code, every run: booleans compared with the binary64 model run inside coqc wherever judged, and exactly "
+          "(boundary points, absolute thresholds) on exactly representable cases; 72/72 lines hit. NOT proved: IEEE rounding inside the 1e-9 L "
+          "band; flat disk: only the False side is judged; convex meshes: faces come from scipy ConvexHull and are verified exactly as "
+          "supporting half-spaces. Known findings: none."),
     design_ref="DESIGN.md section 5, C13",
-    technique="Coq proof over R about a hand-written Gallina model + model/implementation correspondence by vm_compute (PrimFloat) + exact rational oracle",
-    note=TB + "; convex meshes: faces from scipy ConvexHull verified exactly as supporting half-spaces; flat disk: only the False side is judged",
+    technique="Coq proof over R about a hand-written Gallina model + model/implementation correspondence by vm_compute (PrimFloat) + exact rational oracle doubled by the Coq-proven outside_cert",
+    note=TB + "; " + RA + "; convex meshes: faces from scipy ConvexHull verified exactly as supporting half-spaces; flat disk: only the False side is judged",
 )
 CHECKS["C14"] = dict(
     category="proof",
-    text=("State-machine proof (Props/C14.v, closed under the global context): for every collider class incl. nested Margin wrappers, every "
-          "construction pose and every finite history of update_pose / support / aabb / center / first_vertex / collider2origin operations with "
-          "C-contiguous poses (fresh or item of a stack), the surviving object holds the same attribute data as one constructed at the last pose, "
-          "all queries return equal results and none raises (no_type_error); the pre-fix Disk/Ellipse configuration is refuted. The numba "
-          "signatures, update_pose bodies and call-site wrappers are re-extracted from /repo's sources on every run (Gen/CollidersTables.v) so the "
-          "theorems are re-checked against the current code; numpy view/layout and numba dispatch rules are modelled and validated per run against "
-          "arr.flags and raised exception types on generated histories, and observables are compared bitwise with fresh objects."),
+    text=("State-machine proof (Props/C14.v, 5 theorems, closed under the global context: no axioms). PROVED for every collider class incl. "
+          "Box's vertex cache, the mesh functor's own pose copy and nested Margin wrappers, every construction pose and every finite history of "
+          "update_pose / support / aabb / center / first_vertex / collider2origin operations with C-contiguous poses (fresh or item of a stack) "
+          "and C-contiguous directions: the surviving object holds the same attribute data as one constructed at the last pose "
+          "(update_equals_fresh: only layout tags and the mesh functor's cached start vertex may differ); aabb / center / first_vertex / "
+          "collider2origin return equal results; support returns what the fresh object returns once its cached start vertex is set to the "
+          "survivor's (equal outright for mesh-free shapes); no operation raises (no_type_error). The pre-fix Disk / Ellipse configuration "
+          "(F15, fixed by b36ceae) is refuted (three *_old_refuted theorems). TIE to the code: the theorems are stated for the CURRENT "
+          "configuration - numba signatures, update_pose bodies and call-site wrappers are re-extracted from /repo's sources on every run "
+          "(harness/tables_c14.py -> Gen/CollidersTables.v) and the proofs re-checked; the reader fails closed on any attribute write outside "
+          "__init__ / update_pose / make_artist and on any state write of the mesh functor other than the vertex cache. MODELLED, NOT PROVED: "
+          "numpy's view / layout rules and numba's dispatch on declared signatures; the numerical kernels are arbitrary functions of the "
+          "attribute data, so query BODIES are not compared with a model here (C03 / C04 do that). JUDGED PER GENERATED INPUT only: on generated "
+          "histories (pose sources incl. one buffer / one stack slot overwritten in place and handed over again; tracking, drift and "
+          "trajectory-player histories) the layout model is validated against arr.flags and raised exception types, and every query inside the "
+          "history as well as the final battery is compared bitwise with a NEW object built at the pose reached so far. Outside the property: "
+          "queries between the caller's in-place mutation of a pose array and the next update_pose. Not seen by the reader (audit): a new "
+          "compiled callee outside its entry-point list, signatures of containment.*_aabb other than box_aabb, an update_pose inherited by a "
+          "new subclass, mutation through method calls. Known findings: none."),
     design_ref="DESIGN.md section 5, C14",
     technique="Coq proof by induction over operation histories on a model regenerated from the source (ast reader) + history correspondence",
-    note=TB + "; harness/tables_c14.py (ast reader) is trusted; numerical kernels are abstract functions of attribute data in the model",
+    note=TB + "; no axioms in Props/C14.v; harness/tables_c14.py (ast reader) is trusted; numerical kernels are abstract functions of attribute data in the model",
 )
 CHECKS["C17"] = dict(
     category="proof",
-    text=("Proved in Coq (Props/C17.v, 25 theorems) about the Gallina model Model/TetMesh*.v whose tables (Gen/TetTables.v) are re-extracted from "
-          "the source by a fail-closed ast reader on every run - FOR ALL INPUTS: (a) make_tetrahedral_box (all sizes > 0, all 7 reachable topology "
-          "classes) and cube: every element has non-zero volume of the factory's orientation sign, volumes sum to sx*sy*sz, all vertices in the "
-          "box, NO TWO ELEMENTS OVERLAP, potential = distance to the boundary (0 on corners, min half size on medial vertices) ('exact tiling' = "
-          "disjoint + contained + equal volume; the measure-theoretic step 'hence no gaps' is not formalised); (b) icosphere, EVERY order: closed "
-          "consistently oriented surface, cache key injective, vertices on the sphere; (c) cylinder, ANY n, arbitrary counter-clockwise rim "
-          "points, all three classes: elements positively oriented, volumes sum to len * polygon area, no two elements overlap, potentials = "
-          "inradius; capsule, any n and any number of cap circles: elements positive with explicit volume sum; (d) helpers: volumes, tightest "
-          "AABBs, centre of mass = their definitions; RigidBody: after ANY sequence of reads / express_in the cached com / aabbs / "
-          "tetrahedra_points / aabb() equal a direct computation on the current vertices; mesh_cert is sound. PER GENERATED INPUT only: volume "
-          "sum = convex-hull volume for sphere/ellipsoid, libm cos/sin values, the rim-point hypotheses of the cylinder/capsule theorems, RigidBody "
-          "read/express_in histories. Tie, every run: bit-exact binary64 run of the model vs the implementation for EVERY factory (vertices, "
-          "elements, potentials), helpers, RigidBody twins and histories, class boundaries hit exactly; line coverage of the implementation "
-          "measured (328/328, 12/12, 51/60)."),
+    text=("PROVED in Coq (Props/C17.v, 24 theorems + 5 non-vacuity examples; real-number axioms only) about the Gallina model Model/TetMesh*.v "
+          "whose tables (Gen/TetTables.v) are re-extracted from the source by an ast reader on every run - FOR ALL INPUTS: (a) "
+          "make_tetrahedral_box (all sizes > 0, all 7 reachable topology classes) and cube: every element has non-zero volume of the factory's "
+          "orientation sign, volumes sum to sx*sy*sz, all vertices in the box, NO TWO ELEMENTS OVERLAP, potential = distance to the boundary "
+          "(0 on corners, min half size on medial vertices), centre of mass = box centre ('exact tiling' = disjoint + contained + equal volume; "
+          "the measure-theoretic step 'hence no gaps' is not formalised); (b) icosphere, EVERY order: closed consistently oriented surface "
+          "(each directed edge once, its reverse once), cache key injective on unordered pairs, the normalisation puts every NON-ZERO raw "
+          "vertex on the sphere (that subdivision midpoints are non-zero is not proved); (c) cylinder, ANY n, arbitrary counter-clockwise rim "
+          "points, all three classes: elements positively oriented, volumes sum to len * polygon area, every element of a sector lies in the "
+          "prism over (axis, rim_i, rim_j), no two elements overlap WHEN the angular sectors do not overlap (hypothesis sectors_apart), "
+          "potentials 0 / inradius; capsule, any n and any number of cap circles: elements positive with an explicit volume sum, potentials 0 / "
+          "radius; (d) helpers: volume = |det|/6, tightest AABBs, centre of mass = volume-weighted mean of centroids; RigidBody: after ANY "
+          "sequence of reads / express_in the cached com / aabbs / tetrahedra_points / aabb() equal a direct computation on the current "
+          "vertices; tolerance literals pinned; mesh_cert is sound. PER GENERATED INPUT only (exact rational oracle + Coq-proven mesh_cert on "
+          "the implementation's output): volume sum = convex-hull volume and positive fan volumes for sphere / ellipsoid, libm cos / sin values, "
+          "the rim-point hypotheses (counter-clockwise, sectors apart: checked exactly), RigidBody read / express_in histories. TIE, every run: "
+          "bit-exact binary64 run of the model vs the implementation for EVERY factory (vertices, elements, potentials), helpers bit-exact / "
+          "1e-12 (com), RigidBody twins and histories, class boundaries hit exactly; line coverage measured (328/328, 12/12, 51/60). The reader "
+          "is fail-closed for the literal tables and element loops only: icosphere prologue, sphere / ellipsoid wrappers, box corner loops, "
+          "cylinder class dispatch and capsule vertex loops are pinned by the bit-exact run alone. Known findings: none."),
     design_ref="DESIGN.md section 5, C17",
     technique="Coq proofs about a Gallina model (polynomial reflection, induction over sectors / subdivision order) with tables re-extracted from the source + bit-exact binary64 correspondence + proven certificate checker",
-    note=TB + "; harness/tables_c17.py (ast reader) and harness/c17_oracle.py are trusted; numpy cos/sin evaluated by the harness for the model's trig inputs; scipy ConvexHull only as untrusted witness",
+    note=TB + "; " + RA + "; harness/tables_c17.py (ast reader) and harness/c17_oracle.py are trusted; numpy cos/sin/ceil/clip evaluated by the harness for the model's trig inputs; scipy ConvexHull only as untrusted witness",
 )
 
 CHECKS["C02"] = dict(
     category="translation_validation",
-    text=("Proved in Coq for all inputs (Props/C02.v): every collider shape expression denotes a convex set; para_cert (8 exact corners of a "
-          "parallelepiped around p certified as members) and Deep.deep_cert (last Minkowski summand a ball) each imply that the ball of radius "
-          "delta around p lies in the collider; overlap_cert = true => p is >= delta inside both colliders; gap_cert = true => all point pairs "
-          "are >= delta apart; no pair carries both certificates; the separating-axis exit of the Jolt boolean loop model is sound. Judged per "
-          "generated input only: for each pair whose certificate evaluates to true inside coqc (exact rationals of the constructor floats, "
-          "untrusted witnesses), gjk_intersection_jolt, gjk_intersection_libccd, mpr_intersection, gjk_nesterov_accelerated_intersection (and the "
-          "primitives variant on its accepted kinds) must answer True (overlap class) / False (gap class) and agree with gjk_distance_jolt. "
-          "Tie to the code beyond the answers: Gallina models of gjk_intersection_libccd, mpr_intersection and the Jolt loop replay the support "
-          "traces recorded from the implementation (every search direction, iteration count and answer must agree). The algorithms' accuracy in "
-          "floating point is not proved."),
+    text=("PROVED in Coq for all inputs (Props/C02.v, 10 theorems; real-number axioms only): every collider shape expression denotes a convex "
+          "set (cones = hull of apex and base disk); para_cert (8 exact corners p+-w1+-w2+-w3 of a parallelepiped certified as members) and "
+          "Deep.deep_cert (last Minkowski summand a ball) each imply that the ball of radius delta around p lies in the collider; overlap_cert "
+          "= true => p is >= delta inside both colliders, so they intersect; gap_cert = true => all point pairs are >= delta apart; no pair "
+          "carries both certificates (C02_classes_disjoint). Exit soundness over the reals, for ARBITRARY sets given through support points: "
+          "the separating-axis exit of the Jolt boolean loop model, the libccd exit dot(w,dir) < -sqrt(eps) and the MPR refinement exit `not "
+          "_encapsulates_origin` each prove disjointness; every False of MPR portal discovery bounds the overlap along the search direction by "
+          "eps. JUDGED PER GENERATED INPUT only: for each pair whose certificate evaluates to true inside coqc (exact rationals of the "
+          "constructor floats, untrusted witnesses), gjk_intersection_jolt, gjk_intersection_libccd, mpr_intersection, "
+          "gjk_nesterov_accelerated_intersection (and the primitives variant on its accepted kinds) must answer True (overlap class) / False "
+          "(gap class) and gjk_distance_jolt must give d <= 1e-5 L / d >= delta - 1e-5 L; pairs without certificate (band, flat shapes in the "
+          "overlap class) are not judged and counted; all boolean tests run twice plus a distance query on ONE pair of objects, the colliders' "
+          "numeric state compared before / after every query. Universality over inputs comes from generation (all 100 ordered kind pairs x "
+          "depth / gap in {1.5, 4, 100} delta, 25 primitive pairs, Margin wrappers, identical, nested, touching, random / lattice streams). TIE "
+          "to the code beyond the answers, every run: Gallina models of gjk_intersection_libccd and mpr_intersection (Model/GjkLibccd.v) and of "
+          "the Jolt loop (Model/JoltLoop.v) replay in binary64 inside coqc the support traces recorded from the implementation: every search "
+          "direction, iteration count and answer must agree; differences are looked at a second time under few-ulp perturbations (near-ties "
+          "excused and counted). NOT proved: termination, the True exits, and the accuracy of any of the five algorithms in floating point; the "
+          "Nesterov boolean test has no model here (C09 replays that loop); njit division by zero (ZeroDivisionError) has no outcome in the "
+          "models. Known findings: none."),
     design_ref="DESIGN.md section 5, C02; section 2.3",
-    technique="Coq-proven ground-truth certificates (ball-in-collider by convexity, separating direction) evaluated by vm_compute + trace-replay correspondence of Gallina loop models",
-    note=TB + "; harness/narrow.py parts()/sh_expr (collider -> shape expression) is trusted; witnesses are untrusted",
+    technique="Coq-proven ground-truth certificates (ball-in-collider by convexity, separating direction) evaluated by vm_compute + Coq exit-soundness theorems + trace-replay correspondence of Gallina loop models",
+    note=TB + "; " + RA + "; harness/narrow.py parts()/sh_expr (collider -> shape expression) is trusted; harness/narrow_bool.py only constructs untrusted witnesses",
 )
 CHECKS["C06"] = dict(
     category="proof",
-    text=("Machine-checked (Props/C06.v; the generic theorems are closed under the global context, the five theorems over the reals - no AssertionError in update_collider_poses / add_collider in exact arithmetic, real_order_ok, narrow_hypothesis_from_enclosure - use the standard-library real-number axioms) about the Gallina model Model/Bvh.v of BoundingVolumeHierarchy / "
-          "self_collision.detect / detect_any / urdf_utils.self_collision_whitelists on top of the proven AABB-tree model, for ALL inputs and "
-          "histories: (1) poses_current: after any sequence of add_collider, transform changes, whitelist updates and update_collider_poses ending "
-          "with update_collider_poses, the tree holds exactly one leaf per registered collider with its current aabb and payload and every "
-          "collider is at the transform manager's current transform (refuted with a witness when one object is registered under two frames); "
-          "(2) the three broad-phase queries return exactly the entries / ordered pairs whose current AABBs overlap, without duplicates, minus "
-          "whitelisted frames; (3) detect_spec / detect_spec_symmetric / detect_any_spec exactly as the property words them, completeness under "
-          "the named hypothesis narrow_implies_aabb_overlap (C04's corollary; false for Ellipsoid colliders in /repo: known finding F9); (4) the generated whitelists = own link + last parent + last "
-          "child. Judged per generated input: that the model IS the code - the real classes run on generated URDF chains/trees/stars with "
-          "set_joint histories and every answer IN ORDER is compared with the model evaluated by vm_compute, plus an independent all-pairs "
-          "brute force oracle. Collider kernels, IEEE rounding and pytransform3d are parameters of the model."),
+    text=("Machine-checked (Props/C06.v, 24 statements; the generic ones are closed under the global context; five over the reals - "
+          "update_poses_never_asserts_R, update_poses_succeeds_R, add_collider_never_asserts_R, real_order_ok, narrow_hypothesis_from_enclosure "
+          "- use the standard-library real-number axioms) about the Gallina model Model/Bvh.v of BoundingVolumeHierarchy / "
+          "self_collision.detect / detect_any / urdf_utils.self_collision_whitelists on top of the proven AABB-tree model of C05. PROVED for "
+          "ALL inputs and histories: (1) poses_current: after any sequence of add_collider, transform changes, whitelist updates and "
+          "update_collider_poses ending with update_collider_poses, the tree holds exactly one leaf per registered collider with its current "
+          "aabb and payload and every collider is at the transform manager's current transform (poses_current_aliasing_refuted: false when one "
+          "object is registered under two frames); fill_tree_with_colliders is such a history; with the C14 collider model plugged in, "
+          "'current AABB' = aabb() of a NEW collider at that transform; (2) the three broad-phase queries return exactly the entries / ordered "
+          "pairs whose current AABBs overlap, without duplicates, minus whitelisted frames; (3) detect_spec / detect_spec_symmetric / "
+          "detect_any_spec exactly as the property words them, detect_any_consistent (some frame marked <=> detect_any True); completeness "
+          "rests on the named hypothesis narrow_implies_aabb_overlap, derived over the reals from enclosure of the shapes by their boxes - "
+          "which C04 REFUTES for Ellipsoid colliders in /repo (finding F9, recorded under C04); (4) generated whitelists = own link + last "
+          "parent + last child, and can be asymmetric; (5) no AssertionError in update_collider_poses / add_collider in exact real "
+          "arithmetic. JUDGED PER GENERATED INPUT only: that the model IS the code - the real classes run on generated URDF chains / trees / "
+          "stars (links in arbitrary order, 20 % with visuals, extras registered before fill_tree, transforms edited in place) with set_joint "
+          "histories; every answer IN ORDER is compared with the model evaluated by vm_compute, plus an independent all-pairs brute-force "
+          "oracle. NOT proved: collider kernels (update_pose, aabb(), gjk_intersection), IEEE rounding, the float cost assertion of "
+          "insert_leaf and pytransform3d are parameters of the model; the coordinate order is a hypothesis (transitive, no NaN). Known "
+          "findings: none."),
     design_ref="DESIGN.md section 5, C06",
-    technique="Coq proof of BVH/self-collision exactness (generic theorems without axioms) over the proven AABB-tree model + order-exact model/implementation correspondence + brute-force oracle",
+    technique="Coq proof of BVH/self-collision exactness (generic theorems without axioms, five real-arithmetic corollaries with the real-number axioms) over the proven AABB-tree model + order-exact model/implementation correspondence + brute-force oracle",
     note=TB + "; pytransform3d (URDF parser, TransformManager) as source of poses; Python dict order = insertion order",
 )
 CHECKS["C12"] = dict(
     category="proof",
-    text=("Theorems over the reals (Props/C12.v): dist_ge, dist_le, intersect, is_support and the distance given by its two defining inequalities "
-          "are invariant under one rigid motion applied to both sets, symmetric in the arguments and scale with a uniform scaling; hence any "
-          "function validated to return the distance within tau on a scene and tau' on its moved / swapped / scaled copy returns values that "
-          "differ by at most tau + tau' (the formal reason the iterative solvers, validated per input by C01, C07-C09, inherit C12). Pose algebra "
-          "of utils.py: round-trip, involution, composition laws. For the modelled closed-form layer the model's output is equivariant as an "
-          "equality (support functions of all kinds, vertex hull argmax, Margin, mesh hill climbing, containment predicates, distance leaves); "
-          "AABBs are not invariant (stated). Per generated input (not a theorem): every scene (all collider kinds through all GJK flavours, MPR, "
-          "EPA; the 34 distance functions) is run in four forms - original, swapped, moved, scaled - and distances, depths, booleans outside the "
-          "band, points, directions and mtv are compared with the tolerance of the specifying property; where the optimum is not unique the "
-          "verdict uses consequences that hold for any optimal answer (membership by the Coq-proven in_shape_tol)."),
+    text=("PROVED, theorems over the reals (Props/C12.v, 63 statements; real-number axioms only): dist_ge, dist_le, intersect, is_support and "
+          "the distance given by its two defining inequalities are invariant under one rigid motion applied to both sets, symmetric in the "
+          "arguments and scale with a uniform scaling; hence ANY function validated to return the distance within tau on a scene and tau' on "
+          "its moved / swapped / scaled copy returns values that differ by at most tau + tau' (C12_inherited_rigid / _swap / _scale / _bool: "
+          "the formal reason the iterative solvers, validated per input by C01, C07-C09, inherit C12 - nothing is proved about those solvers "
+          "here). Pose algebra of utils.py (invert_transform, inverse_transform_point in the code's order of operations): round-trip, "
+          "involution, composition laws. For the modelled closed-form layer the model's OUTPUT is equivariant as an equality: support functions "
+          "of cylinder, capsule, ellipsoid, box (free function and Box collider), cone, ellipse, disk (basis-independent closed form), sphere "
+          "(d <> 0; C12_support_sphere_zero_direction_refuted at d = 0, where the code answers in world coordinates), vertex hull (argmax index "
+          "unchanged), Margin, mesh hill climbing; eight containment predicates; 15 distance leaves under rigid motion (all 7 arms of "
+          "point_to_triangle), swap of line_to_line (general arm) and plane_to_plane (parallel arm), scaling of three point functions. AABBs "
+          "are NOT invariant (C12_aabb_not_invariant). JUDGED PER GENERATED INPUT only (metamorphic differential, not a theorem): every scene "
+          "(all collider kinds + Margin through all GJK flavours, MPR, EPA; the 34 distance functions; 170 closed-form support scenes per quick "
+          "run) is run in five forms - original, swapped (fresh objects and again on the same two), moved (fresh), moved through update_pose "
+          "with the pose array overwritten in place, scaled - and distances, depths, booleans outside the 1e-3 L band, points, directions and "
+          "mtv are compared with the tolerance of the specifying property; where the optimum is not unique the verdict uses consequences that "
+          "hold for ANY optimal answer (membership by the Coq-proven in_shape_tol inside coqc). MPR: flag, contact position and depth >= EPA "
+          "depth - 2e-3 L are judged; equality of MPR depths is a statistic only. TIE to the code: the equivariance theorems speak about the "
+          "models of C03 / C10 / C13 and rely on those checks' correspondences. Skipped and counted: inputs in known-finding classes of C07 / "
+          "C08 / C10 / C11 and (while F-J2 is recorded) self-inconsistent Jolt GJK answers. Known findings: none."),
     design_ref="DESIGN.md section 5, C12",
-    technique="Coq proofs of spec-level invariance + model equivariance; metamorphic differential of paired implementation runs with Coq-proven membership checker",
-    note=TB + "; harness transform_spec / primlib.rigid build the moved scene in floats; known-finding input classes of C07/C10/C11 are skipped and counted",
+    technique="Coq proofs of spec-level invariance + model equivariance; metamorphic differential of paired implementation runs judged with the specifying properties' tolerances and a Coq-proven membership checker",
+    note=TB + "; " + RA + "; harness transform_spec / primlib.rigid build the moved scene in floats; the harness' inner-radius oracle decides 'clear overlap' for the boolean comparisons; known-finding predicates imported from c10/c11, those input classes are skipped and counted",
 )
 CHECKS["C16"] = dict(
     category="proof",
-    text=("Proved for all inputs (Coq, over the reals, about the Gallina model Model/HydroWrench.v of accumulate_wrenches / _transform_wrenches): "
-          "the two world-frame forces are exactly opposite for every contact surface and every frame2world (C16_action_reaction) and the further "
-          "wrench-algebra statements exported in Props/C16.v. Judged per generated input (pairs of RigidBody.make_* bodies at arbitrary poses of "
-          "both bodies, common rigid motions, swapped order, repeated and interleaved calls, both broad phases): swap symmetry, equivariance "
-          "under a common motion, reproducibility of repeated calls within 5 % of the force magnitude with unchanged intersection flag; tree and "
-          "brute-force broad phase give identical pair sets. Tie to the code: the binary64 instance of the model's accumulate_wrenches is run in "
-          "coqc on the implementation's own contact surface, express_in on vertex samples, f12 == -f21 bit for bit, every cached property of "
-          "body 1 equals that of a body rebuilt from its current vertices after every call. Known finding F17 (rounding-noise plane normal)."),
+    text=("PROVED in Coq (Props/C16.v, 8 theorems + 3 examples) about the Gallina model Model/HydroWrench.v of accumulate_wrenches / "
+          "_transform_wrenches, express_in with its caches and all_aabbs_overlap, for ALL inputs: over the reals C16_action_reaction (f12 = "
+          "-f21 for every contact surface and every frame2world); C16_express_in_common_motion + C16_wrench_equivariance (moving both bodies by "
+          "one rigid motion leaves body 1 expressed in body 2's frame unchanged and rotates both wrenches by that motion); C16_wrench_swap (the "
+          "same contact described in the other body's frame with exchanged roles yields the two wrenches exchanged; proper rotations preserve "
+          "the cross product, proved); C16_express_in_idempotent; C16_express_in_invalidates (every cached property is recomputed from the new "
+          "vertices); C16_tree_vs_brute_same_pairs (any coordinate type with a transitive order: the tree-tree query over two one-batch trees "
+          "built with any row permutation lists exactly the pairs of all_aabbs_overlap, each once - corollary of the C05 development). JUDGED "
+          "PER GENERATED INPUT only, NOT proved: every 5 % statement of the property on the real implementation - pairs of RigidBody.make_* "
+          "bodies at arbitrary poses of both bodies (incl. an elongated class), common motions, swapped order, repetitions, interleaved calls "
+          "against a third body, 8-step call histories on the SAME objects with role changes, tree / brute mode, in-place pose updates and cache "
+          "reads compared with cache-free snapshots; equality of the pair sets of both broad phases (exact); world-frame details of "
+          "contact_forces(return_details=True) by the Coq-proven poly_cert. The contact surface itself is C15's subject: nothing here links the "
+          "wrench theorems to geometric correctness of the surface. TIE to the code, every run: binary64 run of the model's "
+          "accumulate_wrenches inside coqc on the implementation's own contact surface (<= 1e-11), express_in on vertex samples (<= 1e-13), "
+          "f12 == -f21 bit for bit, cached properties == those of a rebuilt body after every call. A failed 5 % comparison is credited to a "
+          "known finding (F17: rounding-noise plane normal; F26-C16: lost polygon vertex, the defect F26 of C15) only if repeating both runs "
+          "with per-contact output and LEAVING OUT the tetrahedron pairs of that finding's input class from BOTH sums brings all four wrench "
+          "components under 5 %; otherwise it is a VIOLATION. Known findings: F17, F26-C16."),
     design_ref="DESIGN.md section 5, C16",
-    technique="Coq proof about a Gallina model of the wrench accumulation + per-run correspondence (PrimFloat model vs implementation) + 5 % symmetry/equivariance measurements",
-    note=TB + "; harness/hydrogen.py generators; Python comparisons for the 5 % verdicts",
+    technique="Coq proofs about a Gallina model of wrench accumulation / express_in / broad phase + per-run correspondence (PrimFloat model vs implementation) and 5 % symmetry, equivariance and call-history measurements on generated body pairs",
+    note=TB + "; " + RA + " (none for C16_tree_vs_brute_same_pairs); harness/hydrogen.py generators, harness/impl/c16.py; Python comparisons for the 5 % verdicts",
 )
 CHECKS["C20"] = dict(
     category="other",
-    text=("Differential between two executions of one serialised call list - numba JIT as installed vs NUMBA_DISABLE_JIT=1, separate processes - "
-          "over every family of jitted public code (utils, geometry support functions, containment boxes and predicates, AABB helpers, GJK simplex "
-          "kernels, half-plane kernels, the 34 distance functions, collider pairs through all GJK flavours / MPR / EPA, MeshGraph support "
-          "sequences, AABB tree histories incl. empty-tree queries, and cases of the C06 / C14 / C15 / C16 generators): closed forms agree to 1e-9 "
-          "relative, iterative solvers within the tolerance of C01/C07-C09, booleans / index sets / result structure / exception types identical; "
-          "a crash, hang or exception in one mode only is a failure. Static side (every run, fail-closed ast scan): every njit function with the "
-          "module-level globals it captures; none is rebound or mutated; no jit option other than cache=True. Theorems (Props/C20.v): for every "
-          "insertion history the AABB tree model never indexes outside its arrays (the side condition under which checked and unchecked indexing "
-          "coincide), the empty tree is answered without indexing. Equivalence of arbitrary compiled code is out of reach (no numba/LLVM "
-          "semantics). Known finding C20-NORM-UNDERFLOW."),
+    text=("Differential between two executions of one serialised call list - numba JIT as installed vs NUMBA_DISABLE_JIT=1, separate processes, "
+          "the worker asserts its mode - over every family of jitted public code: utils, geometry support functions and converters, "
+          "containment boxes and predicates, AABB helpers, GJK simplex kernels, half-plane kernels, the 34 distance functions (through the C10 "
+          "worker, incl. an axial stream), collider pairs through all GJK flavours / MPR / EPA, both Nesterov variants with acceleration on "
+          "flat / needle primitives, MeshGraph support sequences, AABB tree histories of C05 plus empty-tree queries, the direct tree API "
+          "(dtype / shape of results for disjoint, overlapping, empty trees), and cases of the C06 / C14 / C15 / C16 generators through their "
+          "own workers. JUDGED PER GENERATED CALL only: closed forms agree to 1e-9 relative, iterative solvers within the tolerance of "
+          "C01 / C07-C09, broad-phase floats to 1e-6, booleans / index sets / result structure / exception types identical; closest points and "
+          "support points are compared by value where several optima exist; a crash, hang or exception in one mode only is a failure. Static "
+          "side (every run, fail-closed ast scan): every njit function (136 today) with the module-level globals it captures (13); none is "
+          "rebound or mutated anywhere in the package; no jit option other than cache=True. PROVED in Coq (Props/C20.v, 5 theorems, closed "
+          "under the global context, about the AABB tree model of C05): for every insertion history insert / box query / tree query never "
+          "index outside their arrays (the side condition under which checked and unchecked indexing coincide), the empty tree is answered "
+          "without indexing, and the query KERNEL applied to an empty tree's root does index out of range "
+          "(C20_empty_query_kernel_index_unsafe = the old F5). NOT proved: equivalence of compiled and interpreted code - out of reach without "
+          "numba / LLVM semantics; the theorems cover one data structure only, and this check has no model / code tie of its own (C05's "
+          "correspondence ties that model). Skipped and counted: inputs in recorded C10 / C11 finding classes, C16 scenes in the F17 class; the "
+          "ORDER of tree-query pairs is not compared when a 'sort' batch has ties (numpy and numba argsort order equal keys differently). "
+          "Known findings: C20-NORM-UNDERFLOW."),
     design_ref="DESIGN.md section 5, C20",
     technique="two-mode differential of a serialised call list + fail-closed ast scan of captured globals/jit options + Coq index-safety theorems",
-    note=TB + "; numpy's and numba's argsort order equal keys differently: order of tree-query pairs is not compared when a 'sort' batch has ties",
+    note=TB + "; no axioms in Props/C20.v; numpy's and numba's argsort order equal keys differently: order of tree-query pairs is not compared when a 'sort' batch has ties; known-finding predicates of C10/C11/C16 imported for skipping",
 )
 
 CHECKS["C10"] = dict(
     category="proof",
-    text=("(1) Coq theorems about the Gallina transliterations Model/DistPrim.v + DistPrimComb.v in exact real arithmetic, for ALL inputs meeting "
-          "the documented preconditions: the returned points lie exactly on their primitives, d = |p1-p2| >= 0, and d = 0 => a common point - "
-          "for 26 of the 34 functions (16 leaves incl. point_to_triangle's 7 Ericson arms and the unconditional 9-arm segment/segment function, "
-          "plane_to_rectangle/box, and 8 combinators through every enumeration order and early exit); Props/C10.v. (2) Tie to /repo on every "
-          "run: ALL 34 functions are modelled (incl. the line/box case tree, the line/circle root finder, the ellipsoid Newton loop, "
-          "disk_to_disk) and evaluated in binary64 inside coqc on the very inputs of the implementation; d and every coordinate of every "
-          "returned point must agree within 1e-9 L; model arm coverage and line/branch coverage of distance/*.py reached by the generated "
-          "calls are printed. (3) Per generated input, all 34 functions: 'points within 1e-9 L of their primitives, ||p1-p2| - d| <= 1e-6 L, "
-          "d >= 0' is a consequence of the Coq theorem Checker/Prim.c10_check_sound evaluated by vm_compute on exact rationals (witnesses "
-          "untrusted); an exact Python oracle runs as second opinion. Exception / NaN / modified argument = failure. NOT proved: float "
-          "rounding (measured by (2)); for 8 functions universality over inputs comes from generation only. Known findings F20 F21 FD4 FD5."),
+    text=("(1) PROVED, Coq theorems (Props/C10.v, 30: 28 function theorems, C10_zero_common, one refutation; real-number axioms only) about the "
+          "Gallina transliterations Model/DistPrim.v + DistPrimComb.v in exact real arithmetic, for ALL inputs meeting the documented "
+          "preconditions: the returned points lie exactly on their primitives and d = |p1-p2| >= 0, hence d = 0 => a common point - for 28 of "
+          "the 34 functions (16 leaves incl. point_to_triangle's 7 Ericson arms and the 9-arm segment/segment function; plane_to_rectangle / "
+          "box / ellipsoid / cylinder; 8 combinators through every enumeration order and early exit). Qualifications carried by the "
+          "statements: combinator theorems assume d < max_float; C10_triangle_to_triangle concludes only feasible_eps (d may be the literal 0 "
+          "while |p1-p2| <= eps); C10_point_to_circle assumes circle_feasible_ok, and C10_point_to_circle_on_axis_refuted shows the returned "
+          "point off the circle's plane for a point on the axis with 0 < |n_z| < 1e-7 (pytransform3d's eps); point_to_line_segment at s = e "
+          "holds over R only because x/0 = 0 in Coq (code: NaN / ZeroDivisionError): the claim is for s <> e. No theorem: point_to_ellipsoid, "
+          "line_to_circle, line_segment_to_circle, line_to_box, line_segment_to_box, disk_to_disk. (2) TIE to /repo on every run: ALL 34 "
+          "functions are modelled (incl. the line/box case tree, the line/circle root finder, the ellipsoid Newton loop, disk_to_disk) and "
+          "evaluated in binary64 inside coqc on the very inputs of the implementation; d and every coordinate of every returned point must "
+          "agree within 1e-9 L; model arm coverage and line / branch coverage of distance/*.py are printed. (3) JUDGED PER GENERATED INPUT "
+          "only, all 34 functions, 10 stratified streams: 'points within 1e-9 L of their primitives, ||p1-p2| - d| <= 1e-6 L, d >= 0' follows "
+          "from the Coq theorem Checker/Prim.c10_check_sound evaluated by vm_compute on exact rationals (witnesses untrusted; quick tier: "
+          "corpus + every case the Python oracle rejects + the first 10 per function, the rest by the exact Python oracle alone; thorough: "
+          "all); a second pass re-uses the same argument arrays overwritten in place (result must be bit-identical); exception in compiled or "
+          "interpreted mode / NaN / modified argument = failure and is never credited to a known finding. NOT proved: float rounding (measured "
+          "by (2)); for 6 functions universality over inputs comes from generation only. Known findings: F20, F21, FD4, FD5, FD7."),
     design_ref="DESIGN.md section 5, C10",
-    technique="Coq proof over R about a hand-written Gallina model + binary64 model/implementation correspondence (vm_compute) + Coq-proven result checker on every generated input",
-    note=TB + "; harness/primlib.py (generators, witness construction, second-opinion oracle)",
+    technique="Coq proof over R about a hand-written Gallina model + binary64 model/implementation correspondence (vm_compute) + Coq-proven result checker on generated inputs",
+    note=TB + "; " + RA + "; harness/primlib.py (generators, witness construction, second-opinion exact Python oracle, which alone judges the non-sampled quick-tier cases)",
 )
 CHECKS["C11"] = dict(
     category="proof",
-    text=("Theorems for ALL inputs (same models and preconditions as C10): no pair of points of the two primitives is closer than the returned d, "
-          "for 25 of the 34 functions (the 16 leaf functions, plane_to_rectangle/box, and 7 combinators via clamp_of_convex_line_min - the "
-          "convexity argument the code comments cite, proved abstractly - and the polygon-pair edge lemmas); every theorem carries the epsilon "
-          "bands of the code's own tests as explicit hypotheses, inside the bands the failure is refuted with a witness (Props/C11.v). Per "
-          "generated input (documented epsilon bands excluded), all 34 functions: a separating-direction optimality certificate checked by the "
-          "Coq-proven checker (sep_cert_sound; rational sqrt bounds for round shapes), else a closer pair found by search and re-verified "
-          "exactly (=> failure), else 'undecided' (circle functions only; counted). Known findings F10 F11 F22 F23 (circle / disk functions)."),
+    text=("PROVED, Coq theorems for ALL inputs (Props/C11.v, 34: 27 function theorems, 2 general lemmas, 5 refutations; same models and "
+          "preconditions as C10; real-number axioms only): no pair of points of the two primitives is closer than the returned d - for 27 of "
+          "the 34 functions (the 16 leaf functions, plane_to_rectangle / box / ellipsoid / cylinder, and 7 combinators via "
+          "C11_clamp_of_convex_line_min - the convexity argument the code comments cite, proved abstractly - and the polygon-pair edge lemmas). "
+          "Every theorem carries the epsilon bands of the code's own tests as explicit hypotheses; inside the bands optimality is REFUTED with "
+          "witnesses (C11_point_to_circle_in_band_refuted, C11_line_to_line_in_band_refuted, C11_line_to_line_segment_eps1_refuted, "
+          "C11_line_to_rectangle_break_band_refuted, C11_line_segment_to_rectangle_break_band_refuted; the last two: error < 1e-6, inside the "
+          "tolerance). No theorem: point_to_ellipsoid, line_to_circle, line_segment_to_circle, line_to_box, line_segment_to_box, disk_to_disk, "
+          "rectangle_to_box. JUDGED PER GENERATED INPUT only (documented epsilon bands excluded), all 34 functions, 10 stratified streams incl. "
+          "small / coplanar / axis: a separating-direction optimality certificate checked by the Coq-proven checker (sep_cert_sound; rational "
+          "sqrt bounds for round shapes) evaluated by vm_compute on exact rationals - quick tier: corpus, every case the Python oracle rejects "
+          "and the first 10 per function, the rest by the exact Python oracle alone; thorough: all - else a closer pair found by search (a "
+          "targeted search over variants follows a broken correspondence) and re-verified exactly (=> failure), else 'undecided' (circle "
+          "functions only; counted). TIE to the code, every run: the binary64 correspondence of the 34 models shared with C10 (d within 1e-9 "
+          "L). A failure is credited to a known finding only if the input is in the entry's class AND the binary64 model - a transliteration "
+          "of the code, defects included - reproduces the implementation's result (F23: class predicate only). NOT proved: float rounding; "
+          "optimality for the 7 functions above rests on generation, for the non-convex circle functions on an exhaustive fine search "
+          "(untrusted oracle). Known findings: F10, F11, F22, F23, FD6."),
     design_ref="DESIGN.md section 5, C11",
-    technique="Coq proof of optimality over R about the Gallina model + Coq-proven separating-direction certificate checker on every generated input",
-    note=TB + "; circle functions (non-convex): exhaustive fine search as untrusted oracle, labelled in the evidence",
+    technique="Coq proof of optimality over R about the Gallina model + Coq-proven separating-direction certificate checker on generated inputs + binary64 model/implementation correspondence",
+    note=TB + "; " + RA + "; circle functions (non-convex): exhaustive fine search as untrusted oracle, labelled in the evidence; exact Python oracle alone for the non-sampled quick-tier cases",
 )
 
 CHECKS["C18"] = dict(
     category="proof",
-    text=("Proved in Coq about hand-written models of both simplex solvers (Model/Simplex.v = Jolt get_closest_point_to_origin with all helpers, "
-          "Model/SimplexOrig.v = backup procedure of the original GJK with the cofactor table, from_*, reorder) in exact arithmetic: (1) Jolt "
-          "closest_point_line is the exact minimum-norm point of the segment for ALL real inputs; (2) Jolt closest_point_triangle, non-degenerate "
-          "branch: for ALL real inputs each of the 7 Voronoi arms returns the exact minimum-norm point and a subset whose hull contains it; "
-          "(3) original solver, 1-4 points, ALL real inputs: weights >= 0, sum 1, reproduce the returned point from the selected points in the "
-          "returned order, v in the hull; its backup procedure is OPTIMAL for all real inputs with 2 and 3 points (collinear / duplicate points "
-          "included; Johnson's theorem) and for 4 points on every non-degenerate tetrahedron when the origin is not strictly inside or all four "
-          "cofactors exceed EPSILON (partial: the excluded zone is exactly where C18_orig_backup_refuted shows the code wrong); Jolt tetrahedron: "
-          "exact when the origin is strictly inside beyond the band or strictly outside a non-degenerate tetrahedron (ray argument); (4) finite-domain theorems checked inside Coq (vm_compute + proven checker, slack 0): for EVERY "
-          "configuration of 1-4 points with coordinates in {-1,0,1} (551 880 configurations) both models return the exact minimum-norm point, a "
-          "carrier subset and (original) exact weights; (5) the property is FALSE for both models in exact arithmetic on small regular tetrahedra "
-          "around the origin (C18_orig_backup_refuted, C18_jolt_refuted = known findings C18-*-EPS-ABS). NOT proved for all reals: degenerate / in-band tetrahedra of both solvers "
-          "(covered by (4) on the lattice and per generated input). Judged per generated input: every implementation result of both solvers "
-          "is accepted / rejected by the Coq-proven integer certificate (c18_z / bary_z) evaluated by vm_compute on the exact values of the "
-          "binary64 inputs / outputs; model = code is checked per input on all outputs (bit-exact on exact streams, stability-gated otherwise), "
-          "model branch coverage 39/39 + 43/43 on every quick run."),
+    text=("PROVED in Coq (Props/C18.v, 28 theorems) about hand-written models of both solvers (Model/Simplex.v = Jolt "
+          "get_closest_point_to_origin, Model/SimplexOrig.v = backup procedure of the original GJK with its cofactor table) in exact "
+          "arithmetic. (1) Jolt closest_point_line, ALL real inputs: exact minimum-norm point outside the degenerate arm, which is within "
+          "EPSILON and refuted as exact. (2) Jolt closest_point_triangle, non-degenerate branch, ALL real inputs: each of the 7 Voronoi arms "
+          "returns the exact minimum-norm point and a subset whose hull contains it; degenerate branch (_partial): best of the three edges up "
+          "to EPSILON; exactly collinear points: within EPSILON of the minimum. (3) Jolt tetrahedron, ALL real inputs: structure theorem; exact "
+          "when the origin is strictly inside beyond the EPSILON band; _partial: exact for non-degenerate tetrahedra with the origin strictly "
+          "outside and for flat tetrahedra with non-degenerate faces. (4) Original solver, 1-4 points, ALL real inputs: weights >= 0, sum 1, "
+          "reproduce the returned point in the returned order, v in the hull (C18_orig_backup_valid); minimum-norm point for 2 and 3 points "
+          "incl. collinear / duplicate points (Johnson's theorem), for EVERY flat tetrahedron, and (_partial) for every non-degenerate "
+          "tetrahedron when the origin is not strictly inside or all four cofactors exceed EPSILON. (5) Finite domain, inside Coq (vm_compute + "
+          "proven checker kkt_cert, slack 0): on ALL 551 880 configurations of 1-4 points with coordinates in {-1,0,1} both models return, in "
+          "exact rational arithmetic, the exact minimum-norm point, a carrier subset and (original) exact weights. (6) REFUTED: the property is "
+          "FALSE for both models on small regular tetrahedra around the origin (C18_orig_backup_refuted, C18_jolt_refuted = the two EPS-ABS "
+          "findings). NOT proved for all reals: the zones of (6) (Jolt: origin inside the EPSILON band; original: origin strictly inside with a "
+          "cofactor <= EPSILON - false there), Jolt tetrahedra with degenerate faces, triangles with 0 < |n|^2 < EPSILON^2; float rounding. "
+          "JUDGED PER GENERATED INPUT only: every result of both solvers is judged by the Coq-proven integer certificates c18_z / bary_z "
+          "evaluated by vm_compute on the exact binary64 inputs / outputs; witnesses: untrusted Python oracle. TIE to the code, every run: "
+          "model = implementation on all outputs (bit-exact on exact streams where the model flags no near tie, stability-gated otherwise, "
+          "ILLCOND classes skipped); model branch coverage 39/39 + 43/43. Known findings: C18-ORIG-EPS-ABS, C18-ORIG-ILLCOND, C18-JOLT-ILLCOND, "
+          "C18-JOLT-EPS-ABS."),
     design_ref="DESIGN.md section 5, C18",
-    technique="Coq proofs (R: lra/nra/field; Q/Z: vm_compute + proven certificate checkers) about Gallina models of both simplex solvers + per-run model/implementation correspondence",
-    note=TB + "; Checker/KktZ.f2z decodes binary64 literals via the kernel's Prim2SF; untrusted Python oracle supplies witnesses only",
+    technique="Coq proofs (R: lra/nra/field; Q/Z: vm_compute + proven certificate checkers) about Gallina models of both simplex solvers + per-run correspondence model(PrimFloat)/implementation on lattice, grid and real inputs",
+    note=TB + "; Checker/KktZ.f2z decodes binary64 literals via the kernel's Prim2SF (per-case checksum recomputed in Python); untrusted Python oracle supplies witnesses only; BLAS/numba rounding differences are tolerated only where the model flags a near tie or is unstable under 2^-50 input perturbations; coqchk excludes the libraries that depend on the lattice enumerations (said in the evidence)",
 )
 
 CHECKS["C15"] = dict(
     category="proof",
-    text=("Proved in Coq (Props/C15.v). (a) Result checker poly_cert_sound: whenever the integer checker accepts the exact rationals of what the "
-          "implementation returned for a tetrahedron pair, every polygon vertex lies on the reported plane, has barycentric coordinates >= -1e-9 "
-          "in BOTH tetrahedra, the polygon is convex and counter-clockwise about the normal with fan area >= 0, the force is parallel to the normal "
-          "with pressure >= 0; sep_cert_sound certifies disjoint hulls. (b) About the Gallina model Model/Hydro.v (line-by-line transliteration of "
-          "contact_plane, the plane-crossing pre-check, make_halfplanes with its row bookkeeping, intersect_halfplanes, filter_unique_points, "
-          "project_polygon_to_3d, intersect_tetrahedron_pair, compute_contact_force), for ALL inputs: halfplanes_compact (the F14 property), "
-          "intersect_halfplanes sound and complete in exact arithmetic, the vertex set is characterised without the 2-D basis and is identical "
-          "for the swapped call, the plane is the equal-pressure set with unit normal, every reported vertex lies on the plane and inside every "
-          "non-parallel face of both tetrahedra (parallel faces: pre-check theorem; _partial), one-sided pairs give intersection = False, pressure "
-          ">= 0. Judged per generated input: every reported pair (11 classes of single pairs, factory bodies through find_contact_surface with "
-          "both broad phases) by poly_cert in coqc on exact rationals; completeness against the exact rational intersection polygon and order "
-          "independence by Python oracles; the binary64 model run must reproduce every stage. Known finding F26 (vertices on concurrent face "
-          "lines lost by the absolute tolerance)."),
+    text=("PROVED in Coq (Props/C15.v, 25 theorems + 6 examples, PrimFloat-free; real-number axioms only). (a) Result checker: "
+          "C15_poly_cert_sound - if the integer checker accepts the exact rationals of a returned tetrahedron-pair result, every polygon vertex "
+          "lies on the reported plane, has barycentric coordinates >= -1e-9 in BOTH tetrahedra, the polygon is convex and counter-clockwise "
+          "about the normal, the force is parallel to the normal and points along it; C15_sep_cert_sound certifies disjoint hulls. (b) About "
+          "the Gallina model Model/Hydro.v (transliteration of _tetrahedron_intersection / _halfplanes / _forces: contact_plane, pre-check, "
+          "make_halfplanes, intersect_halfplanes with its point buffer, filter_unique_points, polygon projection, same-tetrahedron branch, "
+          "contact force), for ALL inputs - in ANY arithmetic: halfplanes_compact (returned rows = the valid half-planes in order), "
+          "intersect_halfplanes_total (no out-of-bounds write or assertion failure; since f6c3926), intersect_halfplanes_sound / _complete: the "
+          "returned points are exactly the pairwise intersections accepted by the model's OWN (in binary64: rounded) outside-test - NOT "
+          "geometric completeness in binary64 (finding F26); over the reals: the plane has a unit normal and is exactly the equal-pressure set; "
+          "every vertex of a reported polygon lies on the contact plane, has barycentric coordinate >= -EPSILON for every face with a "
+          "half-plane row and > 0 for every exactly parallel face (_partial: projected normals of norm in (0, EPSILON] not covered); the 3-D "
+          "arrangement vertices do not depend on the order of the two tetrahedra; one-sided pairs give intersection = False; the "
+          "same-tetrahedron branch returns a point of the tetrahedron on its plane; the force is parallel to the normal; integrated pressure >= "
+          "0 ONLY IF every polygon vertex is inside tetrahedron 1 and potentials / modulus are >= 0. JUDGED PER GENERATED INPUT only (the "
+          "implementation): every reported pair (11 classes of single pairs; factory bodies through find_contact_surface, both broad phases, "
+          "after call histories too) by poly_cert inside coqc on exact rationals, disjoint inputs by sep_cert; completeness (area = area of the "
+          "exact rational intersection polygon) and order independence by Python oracles. TIE to the code, every run: the binary64 model run "
+          "must reproduce every stage (scalar stages bit for bit, BLAS stages within 1e-9..1e-12, exact ties in a unit stream). A failure is "
+          "credited to F26 only if the exact polygon has a vertex on >= 3 face planes AND the binary64 model reproduces the result bit for bit. "
+          "Known findings: F26."),
     design_ref="DESIGN.md section 5, C15",
-    technique="Coq-proven result checker (vm_compute on exact rationals) + Coq proofs about a hand-written Gallina model + stage-wise model/implementation correspondence + exact rational reference polygon",
-    note=TB + "; harness/hydrogen.py (generators, exact reference polygon, F26 predicate); pinv and arctan2 ordering are inputs of the model",
+    technique="Coq-proven result checker (vm_compute on exact rationals of the implementation's output) + Coq proofs about a hand-written Gallina model + per-run stage-wise correspondence model(PrimFloat) vs implementation + exact rational reference polygon",
+    note=TB + "; " + RA + "; harness/hydrogen.py (generators, exact rational reference polygon, F26 predicate concurrent_lines), harness/impl/c15.py, Python comparisons for order independence / completeness, coverage.py; pinv and the arctan2 ordering are inputs of the model",
 )
 
 CHECKS["C09"] = dict(
     category="translation_validation",
-    text=("Proved in Coq for all inputs (Props/C09.v): (1) the collider-type dispatch of gjk_nesterov_accelerated (Model/Nesterov.v: "
-          "specialised supports, found flag, inflation, the exits that assign `distance`, the max(.,0) wrapper) is consistent for EVERY pair of "
-          "the 11 collider classes: each collider equals the set handed to the loop inflated by its share of `inflation`, hence IF the loop "
-          "converges to the true distance of the sets it was given THEN the wrapper returns the true distance of the original pair; the logic "
-          "before commit 4366de3 (F3) is refuted with a witness; (2) soundness of the result certificates dist_cert (gjk_distance_original) and "
-          "dist_values_cert (certified enclosure of the true distance from untrusted witnesses). Tie to the code: executable Gallina models of the "
-          "whole Nesterov loop (three projections incl. the tetrahedron tree, acceleration branches, cap exit) and of "
-          "gjk_nesterov_accelerated_primitives replay the support traces recorded from the implementation (every pass must agree). The "
-          "Frank-Wolfe convergence and Johnson's sub-algorithm are not proved. Judged per generated input only: gjk_distance_original by dist_cert "
-          "at 1e-3 L; the Nesterov family with and without acceleration and the primitives analogues by dist_values_cert; iteration helpers == "
-          "main entry; all 100 ordered kind pairs at prescribed true distances and overlapping, every mixed specialised/generic pair, "
-          "needle/plate colliders."),
+    text=("PROVED in Coq for all inputs (Props/C09.v, 8 theorems; real-number axioms only): (1) the collider-TYPE DISPATCH of "
+          "gjk_nesterov_accelerated (Model/Nesterov.v: _has_specialized_support, select_support's found flag, which radii enter `inflation`, "
+          "every exit through one `finish` function incl. the cap exit of b028d6b, the max(.,0) wrapper) is consistent for EVERY pair of the 11 "
+          "collider classes (C09_dispatch_table, 121 type pairs): each collider equals the set handed to the loop inflated by its share of "
+          "`inflation` (C09_nesterov_inflation_consistent), hence IF the loop converges to the true distance of the sets it was given THEN the "
+          "wrapper returns the true distance of the original pair (C09_nesterov_distance_exact_if_loop_exact: conditional, uses the converged "
+          "exit only); the well-formedness hypotheses hold for the Spec sphere and capsule sets (C09_sphere_wf, C09_capsule_wf; box / ellipsoid "
+          "/ cylinder inflate factors stay abstract); the logic before commit 4366de3 (F3) is REFUTED with a witness (sphere vs one-vertex "
+          "hull: 3 instead of 4). (2) Soundness of the two result certificates: dist_cert (a, b within tau of their colliders, ||a-b|-d| <= "
+          "tau, no pair closer than d - tau) and dist_values_cert (certified enclosure [lo,up] of the true distance from two untrusted member "
+          "witnesses and one untrusted direction). NOT proved: convergence / accuracy of the Frank-Wolfe loop, Johnson's sub-algorithm of the "
+          "original GJK, the specialised support functions. TIED TO THE CODE on every run: Model/NesterovLoop.v (whole loop: momentum branches, "
+          "duality-gap / convergence / cap exits, zero-direction fallback 41496a5, the three projections with all 43 tetrahedron leaves) is (a) "
+          "replayed in binary64 inside coqc on the support pairs recorded from gjk_nesterov_accelerated (every direction, pass count, contact "
+          "flag, distance to 1e-9), (b) RUN as a full executable model of gjk_nesterov_accelerated_primitives, (c) compared per routine with "
+          "both modules' projections on simplices directed at every reachable leaf (42 of 43); near-ties (the model's own discrete outcome "
+          "changes under 1-10 ulp perturbations) are excused and counted. JUDGED PER GENERATED INPUT only: gjk_distance_original by dist_cert "
+          "at tau = 1e-3 L; the Nesterov family with / without acceleration, the *_distance wrappers and the three primitives analogues by "
+          "dist_values_cert; iteration helpers == main entry; all 100 ordered kind pairs at prescribed true distances and overlapping, mixed "
+          "specialised / generic pairs incl. Margin wrappers, needle / plate, exact-lattice and big-face streams. Known findings: none."),
     design_ref="DESIGN.md section 5, C09",
-    technique="Coq proof of the Nesterov type dispatch + Coq-proven result certificates evaluated by vm_compute on exact rationals + trace-replay correspondence of Gallina loop models",
-    note=TB + "; harness/narrow.py parts()/sh_expr/wit_expr (witnesses untrusted); specialised supports of sphere/capsule modelled as core point/segment",
+    technique="Coq proof of the Nesterov type dispatch (121 type pairs, F3 refuted) + Coq-proven result certificates (dist_cert, certified distance enclosure) evaluated by vm_compute on exact rationals + executable Gallina model of the Nesterov loop replayed/run in binary64 against the code",
+    note=TB + "; " + RA + "; harness/narrow.py parts()/sh_expr/wit_expr (witnesses untrusted); harness/impl/narrowb*.py workers (recorders wrap module attributes of the worker process only); specialised supports of sphere/capsule modelled as core point/segment",
 )
 CHECKS["C19"] = dict(
     category="other",
-    text=("THEOREM (Props/C19.v, for all inputs; every data-dependent test of a loop body is an arbitrary oracle in Model/GjkCaps.v): the capped "
-          "loops terminate and make at most f(caps) support evaluations (libccd, EPA, MPR portal discovery, mpr_penetration, both Nesterov "
-          "loops); the caps (default arguments), the comparison operator of every cap test, the evaluations per pass and the absence of a cap in "
-          "_refine_portal are RE-READ from /repo on every run by a fail-closed ast reader (Gen/NarrowCaps.v) and f(declared caps) <= 1000 is "
-          "re-proved. NOT A THEOREM: termination of the `while True` loops of the Jolt GJK, the original GJK and mpr._refine_portal - "
-          "C19_uncapped_loops_unbounded proves that their control structure admits any number of evaluations; for the Jolt loop model over exact "
-          "reals it IS proved that the loop continues only on a strict decrease of |v|^2 and (partial) that it never runs out of fuel if the "
-          "solver's values lie in a finite list; floating-point liveness is MONITORED only. Monitored per generated pair and entry point (all GJK "
-          "flavours, boolean tests, Nesterov, MPR, EPA, self-collision on small BVHs): support evaluations <= 1000 and <= the proven bound of "
-          "the capped loops, per-call alarm (a timeout is re-run alone before it counts), every returned number finite except the documented "
-          "MAX_FLOAT clip, no exception except EPA's capacity assertion; streams: aspect ratios to 1e4, identical, nested, touching, zero-volume, "
-          "lattice placements, big meshes with a face-normal direction (F-M1). Known finding F2-C19."),
+    text=("THEOREM (Props/C19.v, 6 theorems, for all inputs; every data-dependent test of a loop body is an arbitrary oracle in "
+          "Model/GjkCaps.v, so the bounds hold whatever geometry and floating point decide - a counting abstraction, not a model of the "
+          "computations): the capped loops terminate and make at most f(caps) support evaluations: gjk_intersection_libccd, epa, MPR portal "
+          "discovery, mpr_penetration's _find_penetration_info, both Nesterov loops (at most one `continue` each). TIE to the code: caps "
+          "(default arguments), the comparison operator of every cap test, evaluations per pass (loop body AND module-level callees, both call "
+          "forms), the pinned counters and the absence of a cap in _refine_portal are RE-READ from /repo on every run by a fail-closed ast "
+          "reader (harness/narrow_caps.py -> Gen/NarrowCaps.v) and f(declared caps) <= 1000 is re-proved (C19_default_caps_within_1000; today "
+          "200, 128, 204, 204+204, 258, 258). For the Jolt loop model over exact REALS (Model/JoltLoop.v; real-number axioms): the loop "
+          "continues only on a strict decrease of |v|^2 (C19_jolt_continues_only_on_strict_decrease) and, PARTIAL, never runs out of fuel if "
+          "the solver's values lie in a finite list (hypothesis not discharged; bound far above 1000). NOT A THEOREM: termination / the 1000 "
+          "bound of the `while True` loops of gjk_distance_jolt, gjk_intersection_jolt, gjk_distance_original and mpr._refine_portal in "
+          "floating point - C19_uncapped_loops_unbounded proves that their control structure admits any number of evaluations; liveness there "
+          "is MONITORED only. MONITORED PER GENERATED PAIR and entry point (all GJK flavours, boolean tests, Nesterov, MPR, EPA; "
+          "self_collision.detect / detect_any on small BVHs): support evaluations <= 1000 and <= the proven bound of the capped loops (counter "
+          "wrapping support_function); 20 s alarm per call (a timeout / dead worker is re-run alone with 120 s before it counts); every returned "
+          "number finite except the documented MAX_FLOAT clip; no exception except EPA's capacity assertion on smooth shapes - also "
+          "INTERPRETED (NUMBA_DISABLE_JIT=1) on a subset plus a batch of flat-ellipsoid primitive pairs through both accelerated Nesterov "
+          "loops. Streams: aspect ratios to 1e4, identical, nested, touching, zero-volume, lattice placements, big meshes with a small collider "
+          "in front of a face. F2-C19 is used only when, after a GJK exit with n_points < 4, a row of the simplex handed to EPA is "
+          "uninitialised memory (observed exactly). Known findings: F2-C19."),
     design_ref="DESIGN.md section 5, C19",
-    technique="Coq proof that every capped narrow-phase loop makes at most f(caps) support evaluations for arbitrary oracles, caps and loop shapes re-extracted from the source each run; liveness/finiteness/exception policy monitored on generated degenerate inputs",
-    note=TB + "; harness/narrow_caps.py (ast reader); the support-evaluation counter wraps collider.support_function",
+    technique="Coq proof that every capped narrow-phase loop makes at most f(caps) support evaluations for arbitrary oracles, caps and loop shapes re-extracted from the source each run (fail-closed ast reader); strict-decrease theorem for the Jolt loop over the reals; liveness/finiteness/exception policy monitored on generated degenerate inputs, compiled and interpreted",
+    note=TB + "; " + RA + " for the two Jolt theorems only; harness/narrow_caps.py (ast reader; NOT seen: calls through objects other than `<expr>.support_function`, dynamically bound names, callables passed as data); the support-evaluation counter wraps collider.support_function (the specialised Nesterov supports bypass it: there the returned iteration count is bounded instead)",
 )
 
 CHECKS["C07"] = dict(
     category="translation_validation",
-    text=("Every success=True result of gjk -> epa is judged by Coq-proven result checkers (Checker/Pen.v, theorems in Props/C07.v) evaluated by "
-          "vm_compute on the exact rationals of the returned vector; A and B are the exact shape expressions of the floats given to the "
-          "constructors. Proved for ALL inputs: (1) touch_cert = true => after translating B by mtv some direction sees an extent of A-(B+mtv) of "
-          "at most tau (residual overlap), a certified pair of points is within tau (remaining gap), and depth(A,B) <= |mtv| + tau; (2) "
-          "depth_ge_cert = true => for EVERY direction n there are a in A, b in B with (a-b).n >= rho |n| (a cone-tree certificate: the octants are "
-          "split until one certified point of A-B serves a whole cone; the children provably cover the parent) - with rho = |mtv| - tau: no "
-          "translation shorter than |mtv| - tau separates; (3) failure verdicts are certified too (too_long_cert, sep_cert). tau = 1e-6 L. Judged "
-          "per generated input only: everything about EPA itself - there is no model of the EPA loop; trees, split directions, points and touching "
-          "pairs are untrusted witnesses. The depth LOWER bound is proven only for polytope pairs; for smooth pairs only a certified refutation is "
-          "searched. 'Hulls, boxes and small meshes must succeed' is judged per case; both simplex windings are run. Known findings F2, F19."),
+    text=("Every success=True result of gjk -> epa is judged by Coq-proven result checkers (Checker/Pen.v; Props/C07.v, 9 theorems over R, "
+          "real-number axioms only) evaluated by vm_compute on the exact rationals of the returned vector; A and B are the exact shape "
+          "expressions of the floats given to the constructors. PROVED for ALL inputs: (1) touch_cert = true => after translating B by mtv some "
+          "direction sees an extent of A-(B+mtv) of at most tau (residual overlap), a certified pair of points is within tau (remaining gap) "
+          "and depth(A,B) <= |mtv| + tau; (2) depth_ge_cert = true => for EVERY direction n there are a in A, b in B with (a-b).n >= rho |n| "
+          "(cone tree over the 8 octants, children provably covering the parent, each leaf closed by one certified point of A-B); with rho = "
+          "|mtv| - tau no translation shorter than |mtv| - tau separates (C07_no_shorter_translation); (3) failure verdicts are certified too "
+          "(too_long_cert, sep_cert). tau = 1e-6 L. About the hand-written model Model/Epa.v of the WHOLE loop (initial tetrahedron with the "
+          "orientation step of 3c14c49, closest face, convergence test, visibility test, loose-edge bookkeeping, face removal, extension, "
+          "fix_ccw, capacities as error values) over R, for all inputs, support mappings and capacities: C07_epa_exit_separates and "
+          "C07_epa_success_upper (on success mtv = 0 or mtv lies along a unit direction n with no residual overlap along n and |mtv| = extent "
+          "of A-B along n: an UPPER bound of the depth, given true support mappings), C07_epa_initial_polytope_outward. NOT proved: minimality "
+          "of the exit direction (no polytope invariant of the expansion), Euclidean gap 0, termination, anything about EPA in floating point - "
+          "decided per run by the certificates. TIE to the code: binary64 run of the model (Model/EpaRun.v) on vertex-hull pairs with 4 live "
+          "simplex rows only (23 of 210 quick / 183 of 1410 thorough cases): success flag, mtv (1e-9 L) and face count must agree where the "
+          "model is stable under 1-4 ulp perturbations and np.argmin's margin exceeds 1e-9 L, otherwise only |mtv| (1e-6 L); about 1/3 unstable "
+          "(lattice). JUDGED PER GENERATED INPUT only: everything else; trees, split directions, points and touching pairs are untrusted "
+          "witnesses. The depth LOWER bound is proven only for polytope pairs (tree size limit per tier); for smooth pairs only a certified "
+          "refutation is searched. 'Small polytopes must succeed' is judged per case; both windings are run. F2 / F19 are credited only if the "
+          "same query re-run with proper support rows resp. enlarged capacities succeeds and passes every certificate. Known findings: F2, F19."),
     design_ref="DESIGN.md section 5, C07",
-    technique="Coq-proven result checkers (cone-tree certificate for the penetration depth, support-value bounds) evaluated by vm_compute on the implementation's exact outputs",
-    note=TB + "; harness/narrow.py parts(); the worker observes n_points by wrapping _distance_loop; scipy only builds untrusted witnesses",
+    technique="Coq-proven result checkers (cone-tree certificate for the penetration depth, support-value bounds) evaluated by vm_compute on the implementation's exact outputs + theorems about a Gallina model of the EPA loop tied to the code by a binary64 correspondence run",
+    note=TB + "; " + RA + "; harness/narrow.py parts(); the worker observes n_points by wrapping _distance_loop; scipy only builds untrusted witnesses",
 )
 CHECKS["C08"] = dict(
     category="translation_validation",
-    text=("Every mpr_penetration answer is judged by the Coq-proven checker pen_cert (Checker/PenMpr.v, Props/C08.v) on exact rationals: depth "
-          "t >= 0, ||u|^2 - 1| <= 1e-9 or (t = 0 and u = 0); B moved by the exact rational t*u: some direction sees an extent <= tol (residual "
-          "overlap); depth(A,B) <= t + tol; the contact position within tol of a certified point of A and of B; 'not intersecting' answers: "
-          "depth(A,B) <= tol. tol = 2e-3 L. Soundness of pen_cert is proved for all inputs; failure verdicts carry a proven refutation where one "
-          "exists (sep_cert, cone-tree depth_ge_cert on polytope pairs). Proved about the hand-written model Model/Mpr.v of the result-producing "
-          "functions over R, for all inputs: mpr_depth_nonneg; mpr_dir_unit_or_zero; mpr_contact_in_both_partial (if the weights are >= 0 the "
-          "contact position is the midpoint of a point of A and a point of B - sign and distance are what the per-run certificate bounds). No "
-          "model of portal discovery / refinement in this check (C02 replays mpr_intersection traces). Results are read only after two further "
-          "unrelated MPR queries in the same process (aliasing of internal state is observed). Known findings F20, F22."),
+    text=("Every mpr_penetration answer is judged by the Coq-proven checker pen_cert (Checker/PenMpr.v; Props/C08.v, 7 theorems, real-number "
+          "axioms only) on exact rationals: depth t >= 0; ||u|^2 - 1| <= 1e-9, or u = 0 and t <= 2^-52; B moved by the exact rational t*u: "
+          "some direction sees an extent <= tol (residual overlap); depth(A,B) <= t + tol (t is bounded from below only, by one witness "
+          "direction: over-long depths are allowed by the property); the contact position within tol of a certified point of A and of B; 'not "
+          "intersecting' answers: depth(A,B) <= tol. tol = 2e-3 L. PROVED for all inputs: soundness of pen_cert (C08_direction_sound, "
+          "C08_result_certificate_sound, C08_not_intersecting_sound, C08_depth_lower_bound_sound). A failure needs the certificate rejected AND "
+          "the harness' float oracle confirming with 1 % margin; it carries a proven refutation where one exists (sep_cert for the contact "
+          "position, cone-tree depth_ge_cert for a too small depth on polytope pairs). Proved about the hand-written model Model/Mpr.v of the "
+          "result-producing functions (_penetration_info, _find_penetration_touch / _segment, _contact_position, final norm_vector; "
+          "point_to_triangle is the C10 model) over R, for all inputs: C08_mpr_depth_nonneg; C08_mpr_dir_unit_or_zero; "
+          "C08_mpr_contact_in_both_partial (with non-negative weights the contact position is the midpoint of a point of A and a point of B - "
+          "the sign of the weights and the distance of those points are NOT proved; the per-run certificate bounds them). TIE to the code, "
+          "every run: the portal the query ended with (captured from the Simplex object) is replayed through the binary64 instance "
+          "Model/MprRun.v; depth, direction and position must agree within 1e-9 L. NOT proved / not modelled here: portal discovery and "
+          "refinement (C02 replays mpr_intersection traces through Model/GjkLibccd.v), termination of _refine_portal (C19), float rounding. "
+          "JUDGED PER GENERATED INPUT only: all of the above on generated overlapping and separated pairs (concentric, aligned, coaxial, nested "
+          "streams); results are read only after two further unrelated MPR queries in the same process (aliasing of internal state is "
+          "observed). F20 / F22 are credited only on the arm origin_on_v0v1_segment when nothing but the contact position fails (F20: centres "
+          "within 1e-9 L; F22: a collider thinner than depth/2 along the direction). Known findings: F20, F22."),
     design_ref="DESIGN.md section 5, C08",
-    technique="Coq-proven result checker evaluated by vm_compute on the implementation's exact outputs + theorems about a Gallina model of the result-producing functions",
-    note=TB + "; harness/narrow.py parts(); per-arm observation by wrapping module-level functions in the worker",
+    technique="Coq-proven result checker evaluated by vm_compute on the implementation's exact outputs + theorems about a Gallina model of the result-producing functions tied to the code by a binary64 correspondence run on the final portal",
+    note=TB + "; " + RA + "; harness/narrow.py parts(); per-arm observation by wrapping module-level functions in the worker; the harness' float oracle gates failures (1 % margin)",
 )
 
 NA_DEFAULT = "no check registered yet: machinery under construction in this session (DESIGN.md section 5 has the plan); not claimed"
